@@ -24,4 +24,14 @@ def layerStep (acc : Dict κ ν) (l : Option (Dict κ ν)) : Dict κ ν :=
 def mergeLayers (layers : List (Option (Dict κ ν))) : Dict κ ν :=
   layers.foldl layerStep []
 
+
+/-- option values of the translated fragment: bool, int, str, list of str, dict str→str -/
+inductive OptVal
+  | b (v : Bool)
+  | n (v : Int)
+  | s (v : List Nat)
+  | l (v : List (List Nat))
+  | d (v : List (List Nat × List Nat))
+  deriving Repr, BEq, DecidableEq
+
 end Cfg
